@@ -24,18 +24,22 @@ ASSUMPTIONS = ['a node without TYPES annotation reports nothing and is always ac
                'tuple types are compared element-wise; resolver answers are computed by applying the real operator to representatives']
 
 M = ps.Menu
-KINDS = ('DEF3', 'CHN', 'RDZ', 'LITI', 'LITF', 'LITS', 'BINADD', 'BINMUL', 'CMPV', 'TUPB', 'UNPK', 'LSTB', 'IDX', 'EXTI', 'EXTF', 'UNK', 'AUGV', 'DEFR', 'DEFW', 'CALL', 'RD')
+KINDS = ('DEFPO', 'ONEI', 'ONEF', 'ONEB', 'DEF3', 'CHN', 'RDZ', 'LITI', 'LITF', 'LITS', 'BINADD', 'BINMUL', 'CMPV', 'TUPB', 'UNPK', 'LSTB', 'IDX', 'EXTI', 'EXTF', 'UNK', 'AUGV', 'DEFR', 'DEFW', 'CALL', 'RD')
 MENUS = {
     'types': M('types', ('LITI', 'LITF', 'LITS', 'BINADD', 'BINMUL', 'CMPV', 'EXTF', 'UNK', 'AUGV', 'RD'), ('if', 'ifelse', 'while', 'for'), vars_=('x',), for_targets=('i',)),
     'tuples': M('tuples', ('LITI', 'LITF', 'TUPB', 'UNPK', 'CHN', 'RDZ', 'LSTB', 'IDX', 'RD'), ('if', 'while'), vars_=('x',), for_targets=('i',)),
     'clos': M('clos', ('LITI', 'LITF', 'DEFR', 'DEFW', 'CALL', 'RD'), ('if', 'while'), vars_=('x',), for_targets=('i',)),
+    # literals that are equal (and hash alike) but differ in type: 1 == 1.0 == True
+    'eqlit': M('eqlit', ('ONEI', 'ONEF', 'ONEB', 'RD', 'BINADD'), ('if', 'while'), vars_=('x',)),
     # a local function (re)defined inside a loop and called before and after its definition
     'loopdef': M('loopdef', ('LITI', 'LITF', 'DEFR', 'CALL'), ('while',), vars_=('x',), depth=1),
     # three function levels: the middle one has its own x (a parameter), the innermost declares it nonlocal
-    'deep': M('deep', ('LITI', 'LITF', 'DEF3', 'CALL', 'RD'), ('if', 'while'), vars_=('x',)),
+    'deep': M('deep', ('LITI', 'LITF', 'DEF3', 'DEFPO', 'CALL', 'RD'), ('if', 'while'), vars_=('x',)),
+    # break in the else clause of a nested loop (leaves the OUTER loop)
+    'loopelse': M('loopelse', ('LITF', 'RD', 'brk'), ('while', 'whileelse'), vars_=('x',), depth=2),
 }
-PLAN = {'quick': [('types', 3), ('tuples', 3), ('clos', 4), ('loopdef', 6), ('deep', 3)],
-        'thorough': [('types', 4), ('tuples', 4), ('clos', 5), ('loopdef', 7), ('deep', 4)]}
+PLAN = {'quick': [('types', 3), ('tuples', 3), ('clos', 4), ('loopdef', 6), ('deep', 3), ('eqlit', 3), ('loopelse', 6)],
+        'thorough': [('types', 4), ('tuples', 4), ('clos', 5), ('loopdef', 7), ('deep', 4), ('eqlit', 5), ('loopelse', 7)]}
 _S = {'tier': 'quick'}
 ps.VAR_KINDS = ps.VAR_KINDS + tuple(k for k in KINDS if k not in ps.VAR_KINDS)
 
@@ -49,7 +53,13 @@ class Rend(ps.Render):
     k = s[0]
     e = self.emit
     v = s[1] if len(s) > 1 and isinstance(s[1], str) else 'x'
-    if k == 'LITI':
+    if k == 'ONEI':
+      e(ind, '%s = 1' % v)
+    elif k == 'ONEF':
+      e(ind, '%s = 1.0' % v)
+    elif k == 'ONEB':
+      e(ind, '%s = True' % v)
+    elif k == 'LITI':
       e(ind, '%s = %d' % (v, self.new()))
     elif k == 'LITF':
       e(ind, '%s = %d.5' % (v, self.new()))
@@ -98,6 +108,10 @@ class Rend(ps.Render):
       e(ind + 2, 'return %s' % v)
       e(ind + 1, 'w = %s' % v)
       e(ind + 1, 'return h()')
+    elif k == 'DEFPO':
+      e(ind, "def g(%s='s', /):" % v)
+      e(ind + 1, 'w = %s' % v)
+      e(ind + 1, 'return w')
     elif k == 'CALL':
       e(ind, 'z = g()')
     else:
@@ -112,7 +126,7 @@ def item_source(item):
   r.emit(1, 'y = 2.5')
   r.emit(1, 'p = (3, 4.5)')
   r.emit(1, 'z = 0')
-  if name in ('clos', 'loopdef', 'deep') and not (body and body[0][0] in ('DEFR', 'DEFW', 'DEF3')):
+  if name in ('clos', 'loopdef', 'deep') and not (body and body[0][0] in ('DEFR', 'DEFW', 'DEF3', 'DEFPO')):
     r.emit(1, 'def g():')
     r.emit(2, 'return y')
   r.block(body, 1)
